@@ -39,6 +39,8 @@ def main(tier):
     for name, text in gen.cast_matrix():
         items.append(dict(name=name, text=text))
     items.extend(gen.cast_call_matrix())
+    for name, text in gen.chained_assignments(rng, tier == "thorough"):
+        items.append(dict(name=name, text=text))
     for name, text in gen.cast_chains(rng, 120 if tier == "quick" else 1500):
         items.append(dict(name=name, text=text))
     for it in items:
